@@ -2,6 +2,7 @@
 //!
 //!   dv-serve enum08 --out FILE                       exhaustive product (membership state × position × room × request)
 //!   dv-serve gen08  --seed S --n N --out FILE        random sequences
+//!   dv-serve memb08 --out FILE                       membership changing between requests on live connections
 //!   dv-serve enum19 --out FILE | gen19 --seed S --n N --out FILE
 //!   dv-serve run --ops FILE --out FILE [--stats FILE]
 //! Op lines are described in c08.rs / c19.rs; a `case id=<n> prop=<C08|C19>` line starts a fresh world.
@@ -11,7 +12,7 @@ use dvcommon::{parse_kv, Args, Gen, Stats};
 use std::io::{BufRead, BufWriter, Write};
 use std::path::PathBuf;
 
-const C08_OPS: &[&str] = &["now", "room", "member", "row", "ref", "delref", "delrow", "open", "auth", "q"];
+const C08_OPS: &[&str] = &["now", "room", "group", "member", "row", "ref", "delref", "delrow", "open", "auth", "q"];
 
 async fn run(ops: &str, out: &str, stats_path: Option<&str>) {
     std::panic::set_hook(Box::new(|_| {}));
@@ -227,6 +228,101 @@ fn enum08(out: &str) -> u64 {
     id
 }
 
+/// one request of every kind on room `r` (own identifiers of rooms 1..3)
+fn queries_short(out: &mut Vec<String>, c: u64, r: u64) {
+    let t = |d: i64| d * DAY;
+    out.push(format!("q c={} kind=RoomList", c));
+    for k in ["RoomDefinition", "RoomNode", "RoomLog", "PeersForRoom"] {
+        out.push(format!("q c={} kind={} r={}", c, k, r));
+    }
+    out.push(format!("q c={} kind=RoomLogAt r={} date={}", c, r, t(13)));
+    for k in ["EdgeDeletionLog", "NodeDeletionLog", "RoomDailyNodes"] {
+        out.push(format!("q c={} kind={} r={} ent=1 date={}", c, k, r, t(14) + 777));
+    }
+    out.push(format!("q c={} kind=RoomDailyNodes r={} ent=1 date={}", c, r, t(12) + 1));
+    out.push(format!("q c={} kind=Nodes r={} ids=11,12,21,31,41", c, r));
+    out.push(format!("q c={} kind=Edges r={} srcs=11:0,21:0,31:0,41:0", c, r));
+}
+
+/// membership of the requester changing BETWEEN requests on a live connection: each scenario is a list of
+/// phases, a phase is a list of room-definition changes of room 1 followed by one request of every kind on
+/// room 1 (and on room 3, of which the requester stays a member, and room 2, of which it never is).
+fn memb08(out: &str) -> u64 {
+    let mut w = BufWriter::new(std::fs::File::create(out).unwrap());
+    let t = |d: i64| d * DAY + 5000;
+    // (name, listed before the first phase?, phases of `member`/`group` lines without their date)
+    let m = |role: &str, en: u8, g: u8| format!("member r=1 k={} role={} en={} g={}", K, role, en, g);
+    let scenarios: Vec<(&str, bool, Vec<Vec<String>>)> = vec![
+        ("disabled-reenabled", true, vec![vec![m("user", 1, 0)], vec![m("user", 0, 0)], vec![m("user", 1, 0)], vec![m("user", 0, 0)]]),
+        ("event-admitted-disabled", false, vec![vec![m("user", 1, 0)], vec![m("user", 0, 0)], vec![m("user", 1, 0)]]),
+        ("admin-demoted", true, vec![vec![m("admin", 1, 0)], vec![m("admin", 0, 0)], vec![m("admin", 1, 0)]]),
+        ("admin-demoted-still-user", true, vec![vec![m("admin", 1, 0), m("user", 1, 0)], vec![m("admin", 0, 0)], vec![m("user", 0, 0)]]),
+        ("useradmin-demoted", true, vec![vec![m("useradmin", 1, 0)], vec![m("useradmin", 0, 0)]]),
+        (
+            "moved-between-groups",
+            true,
+            vec![
+                vec![m("user", 1, 0)],
+                vec!["group r=1 g=1".to_string(), m("user", 0, 0), m("user", 1, 1)],
+                vec![m("user", 0, 1)],
+                vec![m("user", 1, 0)],
+            ],
+        ),
+        (
+            "moved-between-groups-gap",
+            true,
+            vec![vec![m("user", 1, 0)], vec!["group r=1 g=1".to_string(), m("user", 0, 0)], vec![m("user", 1, 1)], vec![m("useradmin", 1, 1), m("user", 0, 1)]],
+        ),
+        ("other-key-disabled", true, vec![vec![m("user", 1, 0), "member r=1 k=3 role=user en=1 g=0".to_string()], vec!["member r=1 k=3 role=user en=0 g=0".to_string()]]),
+    ];
+    let mut id = 0u64;
+    for (name, listed, phases) in scenarios {
+        for late_list in [false, true] {
+            if late_list && !listed {
+                continue;
+            }
+            let mut l: Vec<String> = vec![];
+            world_ops(&mut l, "never");
+            l.push(format!("now t={}", t(15)));
+            l.push("open c=1".into());
+            l.push("open c=2".into());
+            l.push(format!("auth c=1 k={} ready=1", K));
+            l.push("auth c=2 k=3 ready=1".into());
+            let mut day = 16;
+            for (pi, phase) in phases.iter().enumerate() {
+                for (j, line) in phase.iter().enumerate() {
+                    l.push(format!("{} t={}", line, t(day) + j as i64));
+                }
+                day += 1;
+                l.push(format!("now t={}", t(day)));
+                day += 1;
+                if pi == 0 && listed && !late_list {
+                    l.push("q c=1 kind=RoomList".into());
+                    l.push("q c=2 kind=RoomList".into());
+                }
+                if pi == 1 && late_list {
+                    // the first room list of the connection arrives after the first change
+                    l.push("q c=1 kind=RoomList".into());
+                }
+                queries_short(&mut l, 1, 1);
+                for k in ["Nodes r=3 ids=31,11", "Nodes r=2 ids=21", "RoomLog r=3"] {
+                    l.push(format!("q c=1 kind={}", k));
+                }
+                for k in ["Nodes r=1 ids=11,12", "RoomDefinition r=1"] {
+                    l.push(format!("q c=2 kind={}", k));
+                }
+            }
+            writeln!(w, "case id={} prop=C08 scen={} late_list={}", id, name, late_list as u8).unwrap();
+            for x in l {
+                writeln!(w, "{}", x).unwrap();
+            }
+            id += 1;
+        }
+    }
+    w.flush().unwrap();
+    id
+}
+
 /// random sequences: room-definition changes, data changes, clock moves and requests interleaved on
 /// one or two connections (different keys), identifiers drawn from every room including unknown ones
 fn gen08(seed: u64, n: usize, out: &str) {
@@ -248,6 +344,7 @@ fn gen08(seed: u64, n: usize, out: &str) {
         for r in 1..=nrooms {
             writeln!(w, "room r={} t={}", r, tick(&mut g, &mut t)).unwrap();
         }
+        let mut groups = [0u64; 8]; // further groups created per room
         let mut rows: Vec<u64> = vec![];
         let mut made = [0u64; 8];
         let mut refs: Vec<(u64, u64)> = vec![];
@@ -261,7 +358,12 @@ fn gen08(seed: u64, n: usize, out: &str) {
                     let k = 2 + g.below(2) as u64;
                     let role = *g.pick(&["user", "user", "admin", "useradmin"]);
                     let en = if g.chance(2, 3) { 1 } else { 0 };
-                    writeln!(w, "member r={} k={} role={} en={} t={}", r, k, role, en, tick(&mut g, &mut t)).unwrap();
+                    if groups[r as usize] < 2 && g.chance(1, 5) {
+                        groups[r as usize] += 1;
+                        writeln!(w, "group r={} g={} t={}", r, groups[r as usize], tick(&mut g, &mut t)).unwrap();
+                    }
+                    let grp = g.below(groups[r as usize] as usize + 1);
+                    writeln!(w, "member r={} k={} role={} en={} g={} t={}", r, k, role, en, grp, tick(&mut g, &mut t)).unwrap();
                 }
                 1 if g.chance(1, 6) => {
                     made[7] += 1;
@@ -368,6 +470,7 @@ fn main() {
     match a.cmd.as_str() {
         "enum08" => println!("{}", serde_json::json!({"cases": enum08(&out)})),
         "gen08" => gen08(a.u64_or("seed", 1), a.usize_or("n", 50), &out),
+        "memb08" => println!("{}", serde_json::json!({"cases": memb08(&out)})),
         "enum19" => println!("{}", serde_json::json!({"cases": c19::enumerate(&out)})),
         "gen19" => c19::gen(a.u64_or("seed", 1), a.usize_or("n", 50), &out),
         "run" => {
@@ -379,7 +482,7 @@ fn main() {
             unsafe { libc::_exit(0) }
         }
         _ => {
-            eprintln!("usage: dv-serve enum08|gen08|enum19|gen19|run …");
+            eprintln!("usage: dv-serve enum08|gen08|memb08|enum19|gen19|run …");
             std::process::exit(2);
         }
     }
